@@ -17,8 +17,8 @@ from vlib import fmt_list, parse_list
 
 CU_MAX = [0xFF, 0xFFFF, 0xFFFFFFFF, 0xFFFFFFFF]
 WS = [32, 9, 10, 13]
-TABLES = (("Tables_json", "gentables_json.cpp"),)
-PATCHES = "D2 D11 D15 D16 D31 D32 D33"
+TABLES = (("Tables_json", "gentables_json.cpp"), ("Tables_digit", "gentables_digit.cpp"))
+PATCHES = "D2 D11 D15 D16 D61 D62 (json) + D28 D43 D44 D45 D46 (digit)"
 
 
 def to_utf(w, cp):
@@ -222,12 +222,12 @@ def gen_number(rng):
             if int(d) < 2**64:
                 return ("nat", d)
     if r < 0.6:
-        n = rng.choice([1, 9, 10, 2**31, 2**32, 2**53, 2**63 - 1, 2**63 - 2, 10**18])
+        n = rng.choice([1, 9, 10, 2**31, 2**32, 2**53, 2**63 - 1, 2**63, 10**18])
         return ("neg", str(n))
     if r < 0.7:
         while True:
             d = gen_digits(rng, 19)
-            if 0 < int(d) <= 2**63 - 1:
+            if 0 < int(d) <= 2**63:
                 return ("neg", d)
     # a real numeral (RFC grammar), magnitude well inside the double range
     sign = rng.choice(["", "", "-"])
@@ -351,7 +351,7 @@ def gen_text(rng, w):
 # ---------------------------------------------------------------------------
 # trees for Stringify (C08)
 
-BOUNDARY_INT = [0, 1, -1, 9, -9, 10, -10, 2**31 - 1, -2**31, 2**63 - 1, -(2**63 - 1), -(2**62)]
+BOUNDARY_INT = [0, 1, -1, 9, -9, 10, -10, 2**31 - 1, -2**31, 2**63 - 1, -(2**63 - 1), -(2**63), -(2**62)]
 BOUNDARY_DBL = [0.0, -0.0, 1.0, -1.0, 0.1, 0.5, 1.5, 1e22, 1e23, 2.0**53, 2.0**63, 2.0**64, 1.7976931348623157e308, 5e-324,
                 2.2250738585072014e-308, 123456.789, 1e-7, 1e21, 3.141592653589793, -2.5e-5]
 
@@ -414,7 +414,7 @@ def gen_tree(rng, w, depth, reals, top=False):
             return "r%016x" % struct.unpack("<Q", struct.pack("<d", d))[0]
         if k < 0.7:
             return "u%d" % (rng.choice(BOUNDARY_NAT) if rng.random() < 0.6 else rng.randrange(0, 2**64))
-        return "i%d" % (rng.choice(BOUNDARY_INT) if rng.random() < 0.6 else rng.randrange(-(2**63) + 1, 2**63))
+        return "i%d" % (rng.choice(BOUNDARY_INT) if rng.random() < 0.6 else rng.randrange(-(2**63), 2**63))
     return rng.choice(["T", "F", "N"])
 
 
@@ -452,7 +452,11 @@ def minimise(exe, case):
 
     def fails(u):
         r = vlib.differential("json", exe, [" ".join(tk[:2] + [fmt_list(u)])])
-        return bool(r.oracle_fail)
+        if not r.oracle_fail:
+            return False
+        # a shrunk X case must still be a text that is NOT a document: the model (proved equal to
+        # the grammar, c07_all_or_nothing + parse_complete) has to say Undefined for it
+        return tk[0] != "X" or r.oracle_fail[0][2] == "U"
 
     if not fails(units):
         return case
